@@ -68,4 +68,6 @@ def run(chk):
                 if "unstable" in r:
                     chk.add(Finding("R15-stable", "R15-stable::" + mir.strip_generics(fid), "%s orders output elements with %s: elements that compare equal (same uid, line and tag) can change places between two writes" % (fid, r), b.where(t["ln"])))
     chk.rule("R15-stable", "sort calls in writer.rs that are stable", n, floor=1)
+    from . import writertab
+    writertab.compare(chk, "R15-order", fn_filter=lambda fn: fn.split("::")[-1] in ("sort_function", "add_group", "apply_position_restrictions"), floor=20)
     chk.assumptions += ["not decided: placement 'directly after the last placed element of its kind' (runtime order)"]
